@@ -454,6 +454,13 @@ def lexical_layer(model: Model, report: Report, side: str, rule_prefix: str) -> 
     from . import _strings
 
     dm = _strings.extract_decoder(model)
+    from . import c09
+
+    dm.chains = {}  # type: ignore[attr-defined]
+    for ttype, qq in (("SINGLE_QUOTE_STRING", "'"), ("DOUBLE_QUOTE_STRING", '"')):
+        ch, _why = c09.normalisation_chain(model, ttype)
+        if ch is not None:
+            dm.chains[qq] = ch  # type: ignore[attr-defined]
     scalar = star(Chars(CharSet([(0, 0xD7FF), (0xE000, 0x10FFFF)])))
     for quote, qname in (("'", "single"), ('"', "double")):
         for ctxname in ("bracket", "filter"):
@@ -468,6 +475,11 @@ def lexical_layer(model: Model, report: Report, side: str, rule_prefix: str) -> 
             if definite and side == "a-only":
                 for k, msg in definite:
                     report.fail(rule_prefix + ".L6", site, f"{what}:{k}", f"{what}: {msg}")
+                continue
+            rejecting = [pp for pp in dm.problems if pp[1].endswith(":rejected") or pp[1].endswith("pair-rejected")]
+            if rejecting and side == "b-only":
+                for part, k, msg, dfn in rejecting:
+                    report.fail(rule_prefix + ".L6", dfn.qualname, f"{what}:{k}", f"{what}: {msg}", file=dfn.file, line=dfn.line)
                 continue
             if lx["problems"] or dm.problems:
                 # structure of the scanner/decoder itself is off: C09 reports the details
